@@ -1015,6 +1015,10 @@ def C05(c):
         out += explore2("%s_churn_reuse" % kind, kind, 4, 2, th, c, mr * 2, rr * 2, pre_streams=2, drain=False)
         th = [[S(11), S(12)], [DROPS(1), CREATE(), DRIVE(2, max_=2)], [DRIVE(0, max_=2, hold=True), RELALL]]
         out += explore2("%s_churn_reuse2" % kind, kind, 4, 2, th, c, mr, rr, seed_extra=5, pre_streams=2, drain=False)
+        # the id is NOT reused: a copy that the overlapping send put into the removed listener's ring stays there until the channel itself goes
+        # (teardown must still destroy it exactly once, through an allocator that is still there)
+        th = [[S(11), S(12)], [DROPS(1)], [POLL(0, hold=True), RELALL]]
+        out += explore2("%s_churn_teardown" % kind, kind, 4, 2, th, c, mr * 2, rr * 2, seed_extra=6, pre_streams=2, drain=False)
         return out
     run_multi(c, MULTI_OGRE, build_churn, ["InvNoUseAfterFree", "InvDestroyedAtMostOnce", "NoPanic"], procs=4, tag="_churn")
 
